@@ -138,6 +138,21 @@ Qed.
 Definition of_ref (r : ref_read) : rres :=
   match r with RefData b => RData b | RefEOF => RErr EEOF end.
 
+Lemma ref_next_block_some blocks b bs :
+  ref_next_block blocks = Some (b, bs) -> b <> [] /\ concat blocks = b ++ concat bs.
+Proof.
+  induction blocks as [|x xs IH]; [discriminate|].
+  destruct x as [|c x']; cbn [ref_next_block concat app].
+  - exact IH.
+  - intros E. injection E as <- <-. split; [discriminate|reflexivity].
+Qed.
+
+Lemma ref_next_block_none blocks : ref_next_block blocks = None -> concat blocks = [].
+Proof.
+  induction blocks as [|x xs IH]; [reflexivity|].
+  destruct x as [|c x']; cbn [ref_next_block concat app]; [exact IH|discriminate].
+Qed.
+
 Section Reader.
   Variable enc : list N -> list N.
   Variable dec : list N -> option (list N).
@@ -444,6 +459,84 @@ Section Reader.
       rewrite E. specialize (IH x' _ _ Hinv'). destruct (xr_reads dec declen x' ks) as [x'' rs].
       cbn [snd map of_ref] in *. unfold take_N, drop_N in *. now rewrite IH.
   Qed.
+  (* ---- WriteTo, after any number of successful Reads ---- *)
+  Definition is_rdata (r : rres) : bool := match r with RData _ => true | _ => false end.
+  Fixpoint rdata (rs : list rres) {struct rs} : list N :=
+    match rs with
+    | [] => []
+    | RData b :: rs' => b ++ rdata rs'
+    | _ :: rs' => rdata rs'
+    end.
+
+  Lemma write_to_loop_spec : forall blocks fuel x acc cur,
+    RInv x cur blocks -> (length blocks < fuel)%nat ->
+    exists x', xr_write_to_loop dec declen fuel x acc = (x', acc ++ cur ++ concat blocks, Some None).
+  Proof.
+    induction blocks as [|b bs IH]; intros fuel x acc cur [[Hle Hc] Hsrc] Hfuel;
+      (destruct fuel as [|f]; [cbn in Hfuel; lia|]); cbn [xr_write_to_loop]; rewrite <- Hc;
+      set (x1 := xr_set_output x (r_output x) (N.max (r_offset x) (len_N (r_output x))));
+      assert (Hsrc1 : RSrc (r_src x1) (r_header x1) (r_nbytes x1) _) by exact Hsrc.
+    - destruct (chunk_eof x1 0 Hsrc1) as (x' & E). rewrite E. exists x'.
+      cbn [concat]. rewrite app_nil_r. reflexivity.
+    - destruct (chunk_block x1 b bs 0 Hsrc1) as (x' & E & Hsrc' & Ho & Hout). rewrite E.
+      assert (Hinv' : RInv x' b bs).
+      { split; [|exact Hsrc']. unfold buffered. rewrite Ho, Hout.
+        destruct (N.leb_spec (len_N b) 0) as [H0|H0].
+        - assert (b = []) by (apply len_N_zero; lia). subst b. split; [cbn; lia|reflexivity].
+        - split; [lia|reflexivity]. }
+      cbn [length] in Hfuel.
+      destruct (IH f x' (acc ++ cur) b Hinv' ltac:(lia)) as (x'' & E').
+      exists x''. unfold chunk_result. destruct (len_N b <=? 0); rewrite E';
+        cbn [concat]; rewrite <- !app_assoc; reflexivity.
+  Qed.
+
+  Lemma write_to_spec x cur blocks :
+    RInv x cur blocks ->
+    exists x', xr_write_to dec declen x = (x', cur ++ concat blocks, Some None).
+  Proof.
+    intros Hinv. unfold xr_write_to. pose proof Hinv as [_ Hsrc].
+    pose proof (RSrc_length _ _ _ _ Hsrc) as Hlen.
+    destruct (write_to_loop_spec blocks (S (S (length (r_src x)))) x [] cur Hinv ltac:(lia)) as (x' & E).
+    exists x'. exact E.
+  Qed.
+
+  Lemma reads_inv : forall ks x cur blocks x' rs,
+    RInv x cur blocks -> xr_reads dec declen x ks = (x', rs) -> forallb is_rdata rs = true ->
+    exists cur' blocks', RInv x' cur' blocks' /\ rdata rs ++ cur' ++ concat blocks' = cur ++ concat blocks.
+  Proof.
+    induction ks as [|k ks IH]; intros x cur blocks x' rs Hinv E Hall.
+    - cbn [xr_reads] in E. injection E as <- <-. exists cur, blocks. split; [exact Hinv|reflexivity].
+    - cbn [xr_reads] in E. unfold xr_read in E. destruct cur as [|c cur].
+      + pose proof Hinv as [Hb Hsrc].
+        pose proof (RSrc_length _ _ _ _ Hsrc) as Hlen.
+        pose proof (read_blocks blocks (S (S (length (r_src x)))) x k Hinv ltac:(lia)) as H.
+        destruct (ref_next_block blocks) as [[b bs]|] eqn:En.
+        * destruct H as (x1 & E1 & Hinv1). rewrite E1 in E.
+          destruct (xr_reads dec declen x1 ks) as [x2 rs2] eqn:E2. injection E as <- <-.
+          cbn [forallb is_rdata andb] in Hall.
+          destruct (IH x1 _ _ x2 rs2 Hinv1 E2 Hall) as (cur' & bl' & Hinv' & Hcat).
+          exists cur', bl'. split; [exact Hinv'|]. cbn [rdata app].
+          destruct (ref_next_block_some _ _ _ En) as [_ Hc]. rewrite Hc, <- app_assoc, Hcat, app_assoc.
+          unfold take_N, drop_N. rewrite firstn_skipn. reflexivity.
+        * destruct H as (x1 & E1). rewrite E1 in E. injection E as <- <-. cbn in Hall. discriminate.
+      + destruct (read_copy (S (S (length (r_src x)))) x k c cur blocks Hinv) as (x1 & E1 & Hinv1).
+        rewrite E1 in E. destruct (xr_reads dec declen x1 ks) as [x2 rs2] eqn:E2. injection E as <- <-.
+        cbn [forallb is_rdata andb] in Hall.
+        destruct (IH x1 _ _ x2 rs2 Hinv1 E2 Hall) as (cur' & bl' & Hinv' & Hcat).
+        exists cur', bl'. split; [exact Hinv'|]. cbn [rdata]. rewrite <- app_assoc, Hcat, app_assoc.
+        unfold take_N, drop_N. rewrite firstn_skipn. reflexivity.
+  Qed.
+
+  (* any number of successful Reads, then WriteTo: together they deliver everything, once *)
+  Theorem reads_then_write_to ks x cur blocks x' rs :
+    RInv x cur blocks -> xr_reads dec declen x ks = (x', rs) -> forallb is_rdata rs = true ->
+    exists x'' rest, xr_write_to dec declen x' = (x'', rest, Some None) /\
+                     rdata rs ++ rest = cur ++ concat blocks.
+  Proof.
+    intros Hinv E Hall. destruct (reads_inv ks x cur blocks x' rs Hinv E Hall) as (cur' & bl' & Hinv' & Hcat).
+    destruct (write_to_spec x' cur' bl' Hinv') as (x'' & E'). exists x'', (cur' ++ concat bl').
+    split; [exact E'|exact Hcat].
+  Qed.
 End Reader.
 
 (* ------------------------------------------------------------------ writer *)
@@ -615,6 +708,182 @@ Section Writer.
       intros Hall. rewrite Hcap1 in Hall'. auto.
   Qed.
 
+  (* ---- ReadFrom and mixes of Write / ReadFrom ---- *)
+  Lemma pull_in_room x data lim :
+    len_N (w_input x) < w_cap x ->
+    exists n, xw_pull_in x data lim = (xw_set_input x (w_input x ++ take_N n data), drop_N n data, n) /\
+              n <= len_N data /\ n <= w_cap x - len_N (w_input x) /\
+              (lim = None -> data <> [] -> 0 < n).
+  Proof.
+    intros Hlt. unfold xw_pull_in, xw_full.
+    replace (len_N (w_input x) =? w_cap x) with false by (symmetry; apply N.eqb_neq; lia).
+    eexists. split; [reflexivity|]. split; [lia|]. split; [destruct lim; lia|].
+    intros -> Hd. assert (0 < len_N data) by (destruct data; [congruence|apply len_N_cons_pos]). lia.
+  Qed.
+
+  Lemma maybe_flush_framed x s blocks :
+    WCore x s blocks -> len_N (w_input x) <= w_cap x -> w_cap x <> 0 ->
+    exists x' s' blocks',
+      (if xw_full_enough x then xw_flush enc x s else (x, s, true)) = (x', s', true) /\
+      WCore x' s' blocks' /\ len_N (w_input x') < w_cap x' /\ w_cap x' = w_cap x /\
+      concat blocks' ++ w_input x' = concat blocks ++ w_input x /\
+      (Forall (block_ok (w_cap x)) blocks -> Forall (block_ok (w_cap x)) blocks').
+  Proof.
+    intros Hc Hle Hne. destruct (xw_full_enough x) eqn:Efe.
+    - destruct (w_input x) as [|p ps] eqn:Ein.
+      + exists x, s, blocks. unfold xw_flush. rewrite Ein. split; [reflexivity|]. split; [exact Hc|].
+        change (len_N (@nil N)) with 0. repeat split; auto. lia.
+      + destruct (flush_framed x s blocks p ps Hc Ein) as (x2 & s2 & Efl & Hc2 & Hin2 & Hcap2).
+        exists x2, s2, (blocks ++ [p :: ps]). split; [exact Efl|]. split; [exact Hc2|].
+        rewrite Hin2, Hcap2. change (len_N (@nil N)) with 0. split; [lia|]. split; [reflexivity|].
+        split; [rewrite concat_app; cbn [concat]; rewrite !app_nil_r; reflexivity|].
+        intros Hall. apply Forall_app. split; [exact Hall|]. constructor; [|constructor].
+        split; [discriminate|exact Hle].
+    - exists x, s, blocks. split; [reflexivity|]. split; [exact Hc|].
+      unfold xw_full_enough in Efe. destruct Hc as (Hfr & Hrest). rewrite Hfr in Efe. cbn [andb] in Efe.
+      apply N.ltb_ge in Efe. repeat split; auto; try apply Hrest. lia.
+  Qed.
+
+  Lemma at_end_true r rest n :
+    src_at_end r rest n = true -> rest = drop_N n (src_data r) -> n <= len_N (src_data r) ->
+    take_N n (src_data r) = src_data r /\ n = len_N (src_data r).
+  Proof.
+    unfold src_at_end. intros H Hrest Hn. destruct (src_data r) as [|d0 dl] eqn:Ed.
+    - change (len_N (@nil N)) with 0 in *. assert (n = 0) by lia. subst n. split; reflexivity.
+    - apply andb_true_iff in H as [_ H]. destruct rest as [|? ?]; [|discriminate].
+      pose proof (take_drop_N (d0 :: dl) n) as Htd. rewrite <- Hrest, app_nil_r in Htd.
+      split; [exact Htd|].
+      assert (H2 : len_N (take_N n (d0 :: dl)) = len_N (d0 :: dl)) by (rewrite Htd; reflexivity).
+      rewrite len_N_take in H2. lia.
+  Qed.
+
+  Lemma at_end_false r rest n :
+    src_at_end r rest n = false -> src_data r <> [].
+  Proof. unfold src_at_end. destruct (src_data r); [discriminate|discriminate]. Qed.
+
+  Lemma read_from_loop_framed : forall fuel r x s blocks wn,
+    src_fails r = false ->
+    WCore x s blocks -> len_N (w_input x) < w_cap x ->
+    (length (src_data r) + length (src_steps r) < fuel)%nat ->
+    exists x' s' blocks', xw_read_from_loop enc fuel x s r wn = (x', s', WOk (wn + len_N (src_data r))) /\
+      WCore x' s' blocks' /\ len_N (w_input x') < w_cap x' /\ w_cap x' = w_cap x /\
+      concat blocks' ++ w_input x' = concat blocks ++ w_input x ++ src_data r /\
+      (Forall (block_ok (w_cap x)) blocks -> Forall (block_ok (w_cap x)) blocks').
+  Proof.
+    induction fuel as [|fuel IH]; intros r x s blocks wn Hok Hc Hlt Hf; [lia|].
+    cbn [xw_read_from_loop].
+    destruct (pull_in_room x (src_data r) (hd_error (src_steps r)) Hlt) as (n & E & Hnd & Hnr & Hpos).
+    rewrite E.
+    set (x1 := xw_set_input x (w_input x ++ take_N n (src_data r))).
+    set (rest := drop_N n (src_data r)).
+    assert (Hlen1 : len_N (w_input x1) = len_N (w_input x) + n).
+    { unfold x1. cbn [xw_set_input w_input]. rewrite len_N_app, len_N_take. lia. }
+    assert (Hc1 : WCore x1 s blocks) by exact Hc.
+    destruct (maybe_flush_framed x1 s blocks Hc1) as (x2 & s2 & bl2 & Efl & Hc2 & Hlt2 & Hcap2 & Hcat2 & Hall2).
+    { rewrite Hlen1. unfold x1. cbn [xw_set_input w_cap]. lia. }
+    { unfold x1. cbn [xw_set_input w_cap]. lia. }
+    rewrite Efl. cbn [negb].
+    assert (Hcapx1 : w_cap x1 = w_cap x) by reflexivity.
+    assert (Hin1 : w_input x1 = w_input x ++ take_N n (src_data r)) by reflexivity.
+    destruct (src_at_end r rest n) eqn:Eend.
+    - destruct (at_end_true r rest n Eend eq_refl Hnd) as [Htake Hn].
+      rewrite Hok. exists x2, s2, bl2. rewrite <- Hn. split; [reflexivity|]. split; [exact Hc2|].
+      split; [exact Hlt2|]. split; [rewrite Hcap2; exact Hcapx1|].
+      split; [rewrite Hcat2, Hin1, Htake; reflexivity|].
+      rewrite Hcapx1 in Hall2. exact Hall2.
+    - pose proof (at_end_false r rest n Eend) as Hdne.
+      set (r' := {| src_data := rest; src_steps := tl (src_steps r);
+                    src_eof_with_data := src_eof_with_data r; src_fails := src_fails r |}).
+      assert (Hlenrest : len_N rest = len_N (src_data r) - n) by apply len_N_drop.
+      assert (Hmeasure : (length (src_data r') + length (src_steps r') < fuel)%nat).
+      { unfold r'. cbn [src_data src_steps]. unfold len_N in Hlenrest, Hnd, Hpos.
+        destruct (src_steps r) as [|l t] eqn:Est.
+        - specialize (Hpos eq_refl Hdne). cbn [tl length] in *. lia.
+        - cbn [tl length] in *. lia. }
+      destruct (IH r' x2 s2 bl2 (wn + n) Hok Hc2 Hlt2 Hmeasure) as (x' & s' & bl' & E' & Hc' & Hlt' & Hcap' & Hcat' & Hall').
+      exists x', s', bl'. rewrite E'. unfold r'. cbn [src_data]. split.
+      { f_equal. f_equal. lia. }
+      split; [exact Hc'|]. split; [exact Hlt'|]. split; [rewrite Hcap', Hcap2; exact Hcapx1|].
+      split.
+      { rewrite Hcat'. unfold r'. cbn [src_data]. rewrite app_assoc, Hcat2, Hin1, <- !app_assoc.
+        unfold rest. rewrite take_drop_N. reflexivity. }
+      intros Hall. rewrite Hcap2, Hcapx1 in Hall'. rewrite Hcapx1 in Hall2. auto.
+  Qed.
+
+  Lemma read_from_framed x s blocks r :
+    src_fails r = false -> WCore x s blocks -> WIn x ->
+    exists x' s' blocks', xw_read_from enc x s r = (x', s', WOk (len_N (src_data r))) /\
+      WCore x' s' blocks' /\ WIn x' /\ eff_cap (w_cap x') = eff_cap (w_cap x) /\
+      concat blocks' ++ w_input x' = concat blocks ++ w_input x ++ src_data r /\
+      (Forall (block_ok (eff_cap (w_cap x))) blocks -> Forall (block_ok (eff_cap (w_cap x))) blocks').
+  Proof.
+    intros Hok Hc [Hz Hnz]. unfold xw_read_from.
+    set (x0 := xw_ensure x).
+    assert (Hc0 : WCore x0 s blocks).
+    { unfold x0, xw_ensure. destruct (w_cap x =? 0); exact Hc. }
+    assert (Hcap0 : w_cap x0 = eff_cap (w_cap x)).
+    { unfold x0, xw_ensure, eff_cap. destruct (w_cap x =? 0); reflexivity. }
+    assert (Hin0 : w_input x0 = w_input x).
+    { unfold x0, xw_ensure. destruct (w_cap x =? 0); reflexivity. }
+    assert (Hlt0 : len_N (w_input x0) < w_cap x0).
+    { rewrite Hin0, Hcap0. unfold eff_cap. destruct (N.eqb_spec (w_cap x) 0) as [e|ne].
+      - rewrite (Hz e). reflexivity.
+      - exact (Hnz ne). }
+    destruct (read_from_loop_framed (S (S (length (src_data r) + length (src_steps r)))) r x0 s blocks 0 Hok Hc0 Hlt0 ltac:(lia))
+      as (x' & s' & bl' & E & Hc' & Hlt' & Hcap' & Hcat' & Hall').
+    exists x', s', bl'. rewrite E, N.add_0_l. split; [reflexivity|]. split; [exact Hc'|].
+    assert (Hne : w_cap x' <> 0) by lia.
+    split; [split; [intros; lia | intros; exact Hlt']|].
+    split.
+    { rewrite Hcap', Hcap0. unfold eff_cap at 1. destruct (N.eqb_spec (eff_cap (w_cap x)) 0); [|reflexivity].
+      unfold eff_cap in *. destruct (w_cap x =? 0); [discriminate|]. lia. }
+    split; [rewrite Hcat', Hin0; reflexivity|].
+    rewrite <- Hcap0. exact Hall'.
+  Qed.
+
+  (* the operations covered: Write, and ReadFrom of a source that ends with io.EOF *)
+  Definition op_bytes (op : wop) : list N :=
+    match op with OWrite b => b | OReadFrom r => src_data r | OFlush => [] end.
+  Definition op_good (op : wop) : Prop :=
+    match op with OWrite _ => True | OReadFrom r => src_fails r = false | OFlush => False end.
+  Definition ops_payload (ops : list wop) : list N := concat (map op_bytes ops).
+  Definition ops_results (ops : list wop) : list wres := map (fun op => WOk (len_N (op_bytes op))) ops.
+
+  Lemma ops_framed : forall ops x s blocks,
+    Forall op_good ops -> WCore x s blocks -> WIn x ->
+    exists x' s' blocks', xw_ops enc x s ops = (x', s', ops_results ops) /\
+      WCore x' s' blocks' /\ WIn x' /\ eff_cap (w_cap x') = eff_cap (w_cap x) /\
+      concat blocks' ++ w_input x' = concat blocks ++ w_input x ++ ops_payload ops /\
+      (Forall (block_ok (eff_cap (w_cap x))) blocks -> Forall (block_ok (eff_cap (w_cap x))) blocks').
+  Proof.
+    induction ops as [|op ops IH]; intros x s blocks Hg Hc Hi.
+    - cbn [xw_ops]. exists x, s, blocks. unfold ops_payload, ops_results. cbn [map concat].
+      rewrite app_nil_r. repeat split; auto; try apply Hc; try apply Hi.
+    - inversion Hg as [|? ? Hg1 Hgs]; subst.
+      assert (Hstep : exists x1 s1 bl1,
+                 match op with
+                 | OWrite b => xw_write enc x s b
+                 | OReadFrom r => xw_read_from enc x s r
+                 | OFlush => let '(x0, s0, ok) := xw_flush enc x s in
+                             (x0, s0, if ok then WOk 0 else WErr 0 EShortWrite)
+                 end = (x1, s1, WOk (len_N (op_bytes op))) /\
+                 WCore x1 s1 bl1 /\ WIn x1 /\ eff_cap (w_cap x1) = eff_cap (w_cap x) /\
+                 concat bl1 ++ w_input x1 = concat blocks ++ w_input x ++ op_bytes op /\
+                 (Forall (block_ok (eff_cap (w_cap x))) blocks -> Forall (block_ok (eff_cap (w_cap x))) bl1)).
+      { destruct op as [b|r|]; cbn [op_bytes op_good] in *.
+        - exact (write_framed x s blocks b Hc Hi).
+        - exact (read_from_framed x s blocks r Hg1 Hc Hi).
+        - contradiction. }
+      destruct Hstep as (x1 & s1 & bl1 & E1 & Hc1 & Hi1 & Hcap1 & Hcat1 & Hall1).
+      cbn [xw_ops]. rewrite E1.
+      destruct (IH x1 s1 bl1 Hgs Hc1 Hi1) as (x' & s' & bl' & E' & Hc' & Hi' & Hcap' & Hcat' & Hall').
+      rewrite E'. exists x', s', bl'. unfold ops_payload, ops_results in *. cbn [map concat].
+      split; [reflexivity|]. split; [exact Hc'|]. split; [exact Hi'|].
+      split; [rewrite Hcap', Hcap1; reflexivity|].
+      split; [rewrite Hcat', app_assoc, Hcat1, <- !app_assoc; reflexivity|].
+      intros Hall. rewrite Hcap1 in Hall'. auto.
+  Qed.
+
   Definition pooled_cap (pooled : option xwriter) : N :=
     match pooled with Some p => w_cap p | None => 0 end.
 
@@ -635,6 +904,44 @@ Section Writer.
     assert (Hi0 : WIn x0).
     { split; [intros; exact Hin0|]. intros Hne. rewrite Hin0. change (len_N (@nil N)) with 0. lia. }
     destruct (writes_framed bs x0 s0 [] Hc0 Hi0) as (x1 & s1 & bl1 & E1 & Hc1 & Hi1 & Hcap1 & Hcat1 & Hall1).
+    rewrite E1. unfold xw_close.
+    rewrite Hin0 in Hcat1. cbn [concat app] in Hcat1. rewrite Hcap0 in *.
+    specialize (Hall1 (Forall_nil _)).
+    destruct (w_input x1) as [|p ps] eqn:Ein.
+    - assert (Efl : xw_flush enc x1 s1 = (x1, s1, true)) by (unfold xw_flush; rewrite Ein; reflexivity).
+      rewrite Efl. destruct Hc1 as (_ & _ & _ & Hd). rewrite Hd.
+      exists bl1, (xw_reset x1). split; [reflexivity|]. rewrite app_nil_r in Hcat1.
+      repeat split; auto.
+    - destruct (flush_framed x1 s1 bl1 p ps Hc1 Ein) as (x2 & s2 & Efl & Hc2 & Hin2 & Hcap2).
+      rewrite Efl. destruct Hc2 as (_ & _ & _ & Hd). rewrite Hd.
+      exists (bl1 ++ [p :: ps]), (xw_reset x2). split; [reflexivity|].
+      split; [rewrite concat_app; cbn [concat]; rewrite app_nil_r; exact Hcat1|].
+      split.
+      { apply Forall_app. split; [exact Hall1|]. constructor; [|constructor]. split; [discriminate|].
+        destruct Hi1 as [Hz Hnz]. rewrite <- Hcap1. unfold eff_cap.
+        destruct (N.eqb_spec (w_cap x1) 0) as [e|ne]; [rewrite (Hz e) in Ein; discriminate|].
+        specialize (Hnz ne). rewrite Ein in Hnz. lia. }
+      cbn [xw_reset w_input w_nbytes w_cap]. rewrite Hcap2. repeat split; auto.
+  Qed.
+
+  Theorem stream_framed_ops pooled ops :
+    Forall op_good ops ->
+    exists blocks x',
+      xw_stream enc pooled true None ops =
+      (x', stream_of (map enc blocks), ops_results ops, true) /\
+      concat blocks = ops_payload ops /\
+      Forall (block_ok (eff_cap (pooled_cap pooled))) blocks /\
+      w_input x' = [] /\ w_nbytes x' = 0 /\ eff_cap (w_cap x') = eff_cap (pooled_cap pooled).
+  Proof.
+    intros Hg. unfold xw_stream.
+    set (x0 := xw_open pooled true). set (s0 := {| k_data := []; k_room := None |}).
+    assert (Hcap0 : w_cap x0 = pooled_cap pooled) by (destruct pooled; reflexivity).
+    assert (Hin0 : w_input x0 = []) by (destruct pooled; reflexivity).
+    assert (Hc0 : WCore x0 s0 []).
+    { unfold WCore. repeat split; destruct pooled; reflexivity. }
+    assert (Hi0 : WIn x0).
+    { split; [intros; exact Hin0|]. intros Hne. rewrite Hin0. change (len_N (@nil N)) with 0. lia. }
+    destruct (ops_framed ops x0 s0 [] Hg Hc0 Hi0) as (x1 & s1 & bl1 & E1 & Hc1 & Hi1 & Hcap1 & Hcat1 & Hall1).
     rewrite E1. unfold xw_close.
     rewrite Hin0 in Hcat1. cbn [concat app] in Hcat1. rewrite Hcap0 in *.
     specialize (Hall1 (Forall_nil _)).
@@ -747,6 +1054,135 @@ Section Writer.
     - unfold xw_set_input, xw_raw, sink_write. cbn [w_framed w_nbytes w_input w_cap]. rewrite Hfr.
       cbn [andb negb k_room k_data s0 app]. eexists. split; [reflexivity|]. split; reflexivity.
   Qed.
+  Lemma pull_in_any x data lim :
+    w_cap x <> 0 -> len_N (w_input x) <= w_cap x ->
+    exists x1 n, xw_pull_in x data lim = (x1, drop_N n data, n) /\
+      w_input x1 = w_input x ++ take_N n data /\ w_framed x1 = w_framed x /\
+      w_cap x1 <> 0 /\ len_N (w_input x1) <= w_cap x1 /\ n <= len_N data /\
+      (lim = None -> data <> [] -> 0 < n).
+  Proof.
+    intros Hne Hle. unfold xw_pull_in.
+    set (xg := if xw_full x then xw_grow x else x).
+    assert (Hg : w_input xg = w_input x /\ w_framed xg = w_framed x /\ len_N (w_input xg) < w_cap xg).
+    { unfold xg, xw_full. destruct (N.eqb_spec (len_N (w_input x)) (w_cap x)) as [e|ne].
+      - cbn [xw_grow w_input w_framed w_cap]. repeat split; auto. lia.
+      - repeat split; auto. lia. }
+    destruct Hg as (Hgi & Hgf & Hgl).
+    eexists. eexists. split; [reflexivity|]. cbn [xw_set_input w_input w_framed w_cap].
+    rewrite Hgi. rewrite Hgi in Hgl. split; [reflexivity|]. split; [exact Hgf|]. split; [lia|].
+    split; [rewrite len_N_app, len_N_take; destruct lim; lia|].
+    split; [lia|].
+    intros -> Hd. assert (0 < len_N data) by (destruct data; [congruence|apply len_N_cons_pos]). lia.
+  Qed.
+
+  Lemma read_from_loop_unframed : forall fuel r x s wn,
+    src_fails r = false ->
+    UCore x s -> w_cap x <> 0 -> len_N (w_input x) <= w_cap x ->
+    (length (src_data r) + length (src_steps r) < fuel)%nat ->
+    exists x', xw_read_from_loop enc fuel x s r wn = (x', s, WOk (wn + len_N (src_data r))) /\
+      UCore x' s /\ w_cap x' <> 0 /\ len_N (w_input x') <= w_cap x' /\ w_input x' = w_input x ++ src_data r.
+  Proof.
+    induction fuel as [|fuel IH]; intros r x s wn Hok Hc Hne Hle Hf; [lia|].
+    cbn [xw_read_from_loop].
+    destruct (pull_in_any x (src_data r) (hd_error (src_steps r)) Hne Hle)
+      as (x1 & n & E & Hin1 & Hfr1 & Hne1 & Hle1 & Hnd & Hpos).
+    rewrite E.
+    assert (Hfe : xw_full_enough x1 = false).
+    { unfold xw_full_enough. rewrite Hfr1. destruct Hc as (-> & _). reflexivity. }
+    rewrite Hfe. cbn [negb].
+    assert (Hc1 : UCore x1 s).
+    { destruct Hc as (Hfr & Hr & Hd). unfold UCore. rewrite Hfr1. auto. }
+    set (rest := drop_N n (src_data r)).
+    destruct (src_at_end r rest n) eqn:Eend.
+    - destruct (at_end_true r rest n Eend eq_refl Hnd) as [Htake Hn].
+      rewrite Hok. exists x1. rewrite <- Hn. split; [reflexivity|]. split; [exact Hc1|].
+      split; [exact Hne1|]. split; [exact Hle1|]. rewrite Hin1, Htake. reflexivity.
+    - pose proof (at_end_false r rest n Eend) as Hdne.
+      set (r' := {| src_data := rest; src_steps := tl (src_steps r);
+                    src_eof_with_data := src_eof_with_data r; src_fails := src_fails r |}).
+      assert (Hlenrest : len_N rest = len_N (src_data r) - n) by apply len_N_drop.
+      assert (Hmeasure : (length (src_data r') + length (src_steps r') < fuel)%nat).
+      { unfold r'. cbn [src_data src_steps]. unfold len_N in Hlenrest, Hnd, Hpos.
+        destruct (src_steps r) as [|l t] eqn:Est.
+        - specialize (Hpos eq_refl Hdne). cbn [tl length] in *. lia.
+        - cbn [tl length] in *. lia. }
+      destruct (IH r' x1 s (wn + n) Hok Hc1 Hne1 Hle1 Hmeasure) as (x' & E' & Hc' & Hne' & Hle' & Hin').
+      exists x'. rewrite E'. unfold r'. cbn [src_data]. split.
+      { f_equal. f_equal. lia. }
+      split; [exact Hc'|]. split; [exact Hne'|]. split; [exact Hle'|].
+      rewrite Hin'. unfold r'. cbn [src_data]. rewrite Hin1, <- app_assoc. unfold rest.
+      rewrite take_drop_N. reflexivity.
+  Qed.
+
+  Lemma ops_unframed : forall ops x s,
+    Forall op_good ops -> UCore x s -> UIn x ->
+    exists x', xw_ops enc x s ops = (x', s, ops_results ops) /\
+      UCore x' s /\ UIn x' /\ w_input x' = w_input x ++ ops_payload ops.
+  Proof.
+    induction ops as [|op ops IH]; intros x s Hg Hc Hi.
+    - cbn [xw_ops]. exists x. unfold ops_payload, ops_results. cbn [map concat]. rewrite app_nil_r.
+      repeat split; auto; try apply Hc; try apply Hi.
+    - inversion Hg as [|? ? Hg1 Hgs]; subst.
+      set (x0 := xw_ensure x).
+      assert (H0 : UCore x0 s /\ w_cap x0 = eff_cap (w_cap x) /\ w_input x0 = w_input x).
+      { unfold x0, xw_ensure, eff_cap. destruct (w_cap x =? 0); repeat split; apply Hc. }
+      destruct H0 as (Hc0 & Hcap0 & Hin0).
+      assert (Hne0 : w_cap x0 <> 0).
+      { rewrite Hcap0. unfold eff_cap. destruct (N.eqb_spec (w_cap x) 0); [discriminate|assumption]. }
+      assert (Hle0 : len_N (w_input x0) <= w_cap x0) by (rewrite Hin0, Hcap0; apply Hi).
+      assert (Hstep : exists x1,
+                 match op with
+                 | OWrite b => xw_write enc x s b
+                 | OReadFrom r => xw_read_from enc x s r
+                 | OFlush => let '(xx, ss, ok) := xw_flush enc x s in
+                             (xx, ss, if ok then WOk 0 else WErr 0 EShortWrite)
+                 end = (x1, s, WOk (len_N (op_bytes op))) /\
+                 UCore x1 s /\ w_cap x1 <> 0 /\ len_N (w_input x1) <= w_cap x1 /\
+                 w_input x1 = w_input x ++ op_bytes op).
+      { destruct op as [b|r|]; cbn [op_bytes op_good] in *.
+        - unfold xw_write. fold x0.
+          destruct (write_loop_unframed (S (length b)) b x0 s 0 Hc0 Hne0 Hle0 ltac:(lia)) as (x1 & E1 & Hc1 & Hne1 & Hle1 & Hin1).
+          exists x1. rewrite E1, N.add_0_l. split; [reflexivity|]. split; [exact Hc1|]. split; [exact Hne1|].
+          split; [exact Hle1|]. rewrite Hin1, Hin0. reflexivity.
+        - unfold xw_read_from. fold x0.
+          destruct (read_from_loop_unframed (S (S (length (src_data r) + length (src_steps r)))) r x0 s 0 Hg1 Hc0 Hne0 Hle0 ltac:(lia))
+            as (x1 & E1 & Hc1 & Hne1 & Hle1 & Hin1).
+          exists x1. rewrite E1, N.add_0_l. split; [reflexivity|]. split; [exact Hc1|]. split; [exact Hne1|].
+          split; [exact Hle1|]. rewrite Hin1, Hin0. reflexivity.
+        - contradiction. }
+      destruct Hstep as (x1 & E1 & Hc1 & Hne1 & Hle1 & Hin1).
+      cbn [xw_ops]. rewrite E1.
+      assert (Hi1 : UIn x1).
+      { split; [intros; contradiction|]. unfold eff_cap. destruct (N.eqb_spec (w_cap x1) 0); [contradiction|exact Hle1]. }
+      destruct (IH x1 s Hgs Hc1 Hi1) as (x' & E' & Hc' & Hi' & Hin').
+      rewrite E'. exists x'. unfold ops_payload, ops_results in *. cbn [map concat].
+      split; [reflexivity|]. split; [exact Hc'|]. split; [exact Hi'|].
+      rewrite Hin', Hin1, <- app_assoc. reflexivity.
+  Qed.
+
+  Theorem stream_unframed_ops pooled ops :
+    Forall op_good ops ->
+    exists x',
+      xw_stream enc pooled false None ops =
+      (x', match ops_payload ops with [] => [] | _ :: _ => enc (ops_payload ops) end,
+       ops_results ops, true) /\
+      w_input x' = [] /\ w_nbytes x' = 0.
+  Proof.
+    intros Hg. unfold xw_stream.
+    set (x0 := xw_open pooled false). set (s0 := {| k_data := []; k_room := None |}).
+    assert (Hin0 : w_input x0 = []) by (destruct pooled; reflexivity).
+    assert (Hc0 : UCore x0 s0) by (unfold UCore; repeat split; destruct pooled; reflexivity).
+    assert (Hi0 : UIn x0).
+    { split; [intros; exact Hin0|]. rewrite Hin0. change (len_N (@nil N)) with 0. lia. }
+    destruct (ops_unframed ops x0 s0 Hg Hc0 Hi0) as (x1 & E1 & Hc1 & Hi1 & Hin1).
+    rewrite E1. rewrite Hin0 in Hin1. cbn [app] in Hin1.
+    unfold xw_close, xw_flush. rewrite Hin1.
+    destruct Hc1 as (Hfr & _ & _).
+    destruct (ops_payload ops) as [|p ps].
+    - exists (xw_reset x1). repeat split.
+    - unfold xw_set_input, xw_raw, sink_write. cbn [w_framed w_nbytes w_input w_cap]. rewrite Hfr.
+      cbn [andb negb k_room k_data s0 app]. eexists. split; [reflexivity|]. split; reflexivity.
+  Qed.
 End Writer.
 
 (* ------------------------------------------------------------------ the reference format *)
@@ -828,21 +1264,6 @@ Lemma firstn_skipn_add {A} : forall a b (l : list A),
 Proof.
   induction a; intros b l; [reflexivity|].
   destruct l; cbn [firstn skipn Nat.add app]; [now rewrite firstn_nil|]. f_equal. apply IHa.
-Qed.
-
-Lemma ref_next_block_some blocks b bs :
-  ref_next_block blocks = Some (b, bs) -> b <> [] /\ concat blocks = b ++ concat bs.
-Proof.
-  induction blocks as [|x xs IH]; [discriminate|].
-  destruct x as [|c x']; cbn [ref_next_block concat app].
-  - exact IH.
-  - intros E. injection E as <- <-. split; [discriminate|reflexivity].
-Qed.
-
-Lemma ref_next_block_none blocks : ref_next_block blocks = None -> concat blocks = [].
-Proof.
-  induction blocks as [|x xs IH]; [reflexivity|].
-  destruct x as [|c x']; cbn [ref_next_block concat app]; [exact IH|discriminate].
 Qed.
 
 Lemma read_piece {A} (k : nat) (cur rest : list A) :
@@ -1036,6 +1457,126 @@ Section Top.
     split; [|apply delivered_concat].
     unfold xerial_header_bytes. rewrite <- app_assoc.
     apply (read_reference_stream pr xerial_version_info blocks ks); [reflexivity|exact Hf].
+  Qed.
+  (* ---- arbitrary mixes: Write / ReadFrom on the writer, Reads then WriteTo on the reader ---- *)
+  Lemma open_inv_written pr blocks :
+    Forall (fun b => len_N (enc b) < M32) blocks ->
+    RInv enc (xr_open pr (stream_of (map enc blocks))) [] blocks.
+  Proof.
+    intros Hf. split; [apply open_buffered|].
+    destruct (open_fields pr (stream_of (map enc blocks))) as (-> & -> & ->).
+    destruct blocks as [|b bs]; [apply RS_done; reflexivity|].
+    cbn [map stream_of]. unfold xerial_header_bytes. rewrite <- app_assoc.
+    eapply RS_start with (ver := xerial_version_info); eauto.
+  Qed.
+
+  Lemma open_inv_raw pr b : RInv enc (xr_open pr (enc b)) [] [b].
+  Proof.
+    split; [apply open_buffered|].
+    destruct (open_fields pr (enc b)) as (-> & -> & ->). apply RS_raw; reflexivity.
+  Qed.
+
+  Lemma open_inv_empty pr : RInv enc (xr_open pr []) [] [].
+  Proof.
+    split; [apply open_buffered|].
+    destruct (open_fields pr []) as (-> & -> & ->). apply RS_done; reflexivity.
+  Qed.
+
+  (* "any number of successful Reads, then WriteTo, deliver the payload exactly once" *)
+  Definition copy_delivers (x : xreader) (payload : list N) (ks : list N) : Prop :=
+    forall x' rs, xr_reads dec declen x ks = (x', rs) -> forallb is_rdata rs = true ->
+    exists x'' rest, xr_write_to dec declen x' = (x'', rest, Some None) /\ rdata rs ++ rest = payload.
+
+  Lemma copy_delivers_inv x blocks ks :
+    RInv enc x [] blocks -> copy_delivers x (concat blocks) ks.
+  Proof.
+    intros Hinv x' rs E Hall.
+    exact (reads_then_write_to enc dec declen dec_enc declen_dec enc_nonempty enc_not_magic
+             ks x [] blocks x' rs Hinv E Hall).
+  Qed.
+
+  Theorem roundtrip_framed_ops (pw : option xwriter) (pr : option xreader) ops ks :
+    Forall op_good ops -> eff_cap (pooled_cap pw) <= M31 ->
+    exists blocks released,
+      xw_stream enc pw true None ops
+      = (released, stream_of (map enc blocks), ops_results ops, true) /\
+      concat blocks = ops_payload ops /\ Forall (fun b => b <> []) blocks /\
+      (ops_payload ops <> [] ->
+         stream_of (map enc blocks) = ref_encode enc blocks /\
+         ref_decode dec (stream_of (map enc blocks)) = Some (ops_payload ops)) /\
+      (ops_payload ops = [] -> stream_of (map enc blocks) = []) /\
+      snd (xr_reads dec declen (xr_open pr (stream_of (map enc blocks))) ks)
+      = map of_ref (ref_reads [] blocks ks) /\
+      delivered blocks (ops_payload ops) ks /\
+      copy_delivers (xr_open pr (stream_of (map enc blocks))) (ops_payload ops) ks /\
+      w_input released = [] /\ w_nbytes released = 0.
+  Proof.
+    intros Hg Hcap.
+    destruct (stream_framed_ops enc pw ops Hg) as (blocks & x' & E & Hcat & Hall & Hin & Hnb & _).
+    assert (Hfit : Forall (fun b => len_N (enc b) < M32) blocks).
+    { eapply Forall_impl; [|exact Hall]. intros b [_ Hb]. apply enc_len32. lia. }
+    exists blocks, x'. split; [exact E|]. split; [exact Hcat|].
+    split; [eapply Forall_impl; [|exact Hall]; intros b [Hb _]; exact Hb|].
+    split.
+    { intros Hne. destruct blocks as [|b0 bl]; [cbn in Hcat; congruence|].
+      cbn [map stream_of]. rewrite <- Hcat. split.
+      - symmetry. exact (ref_encode_frames enc (b0 :: bl) Hfit).
+      - exact (ref_decode_framed enc dec (b0 :: bl) dec_enc Hfit). }
+    split.
+    { intros He. destruct blocks as [|b0 bl]; [reflexivity|]. exfalso.
+      inversion Hall as [|? ? [Hb _] _]; subst. rewrite <- Hcat in He. cbn [concat] in He.
+      destruct b0; [congruence|discriminate]. }
+    split; [exact (read_written_stream pr blocks ks Hfit)|].
+    split; [rewrite <- Hcat; apply delivered_concat|].
+    split; [rewrite <- Hcat; apply copy_delivers_inv; apply open_inv_written; exact Hfit|]. auto.
+  Qed.
+
+  Theorem roundtrip_unframed_ops (pw : option xwriter) (pr : option xreader) ops ks :
+    Forall op_good ops ->
+    exists released,
+      xw_stream enc pw false None ops
+      = (released, match ops_payload ops with [] => [] | _ :: _ => enc (ops_payload ops) end,
+         ops_results ops, true) /\
+      snd (xr_reads dec declen
+             (xr_open pr (match ops_payload ops with [] => [] | _ :: _ => enc (ops_payload ops) end)) ks)
+      = map of_ref (ref_reads [] [ops_payload ops] ks) /\
+      delivered [ops_payload ops] (ops_payload ops) ks /\
+      copy_delivers (xr_open pr (match ops_payload ops with [] => [] | _ :: _ => enc (ops_payload ops) end))
+                    (ops_payload ops) ks /\
+      w_input released = [] /\ w_nbytes released = 0.
+  Proof.
+    intros Hg.
+    destruct (stream_unframed_ops enc pw ops Hg) as (x' & E & Hin & Hnb).
+    exists x'. split; [exact E|]. split.
+    { destruct (ops_payload ops) as [|p ps] eqn:Ec.
+      - rewrite ref_reads_nil_block. apply read_empty_stream.
+      - apply read_raw_block. }
+    split.
+    { pose proof (delivered_concat [ops_payload ops] ks) as H.
+      cbn [concat] in H. rewrite app_nil_r in H. exact H. }
+    split; [|auto].
+    destruct (ops_payload ops) as [|p ps] eqn:Ec.
+    - pose proof (copy_delivers_inv _ [] ks (open_inv_empty pr)) as H. exact H.
+    - pose proof (copy_delivers_inv _ [p :: ps] ks (open_inv_raw pr (p :: ps))) as H.
+      cbn [concat] in H. rewrite app_nil_r in H. exact H.
+  Qed.
+
+  (* reference streams and raw blocks: Reads then WriteTo *)
+  Theorem reference_stream_copy pr blocks ks :
+    Forall (fun b => len_N (enc b) < M32) blocks ->
+    copy_delivers (xr_open pr (ref_encode enc blocks)) (concat blocks) ks.
+  Proof.
+    intros Hf. rewrite (ref_encode_frames enc blocks Hf). apply copy_delivers_inv.
+    split; [apply open_buffered|].
+    destruct (open_fields pr (xerial_header_bytes ++ frames (map enc blocks))) as (-> & -> & ->).
+    unfold xerial_header_bytes. rewrite <- app_assoc.
+    eapply RS_start with (ver := xerial_version_info); eauto.
+  Qed.
+
+  Theorem raw_block_copy pr b ks : copy_delivers (xr_open pr (enc b)) b ks.
+  Proof.
+    pose proof (copy_delivers_inv _ [b] ks (open_inv_raw pr b)) as H.
+    cbn [concat] in H. rewrite app_nil_r in H. exact H.
   Qed.
 End Top.
 
